@@ -27,23 +27,34 @@ import (
 const keyTorn = "C35-delete-compacts-shared-slice"
 
 func TestMain(m *testing.M) {
-	vlib.Rule("C35: a MasterClient built without dialing (NewMasterClient; updates through the verif export of addLocation/deleteLocation, i.e. exactly what the KeepConnected receive loop calls) gets a rapid-generated sequence of add/delete notifications over 4 volume ids x 5 locations (2 data centers + one location without data center; client data center empty/dc1/dc2) including duplicate adds, deletes of absent locations and deletes of the last location. After EVERY step all four lookup entry points (GetLocations, GetVidLocations, LookupVolumeServerUrl, LookupFileId) are compared for every volume id with a reference ordered set, and every lookup result handed out earlier must still read as it did when it was returned (a result that changes under the caller is a torn read). Plus a bounded-exhaustive enumeration of all sequences up to length 5 (quick) / 7 (thorough) over 1 volume x 3 locations. Non-trivial = the sequence contains an effective delete (location was present) AND at some step a volume had >= 2 locations; distinct = distinct written-out sequence. TestRace (thorough, -race): 4 reader goroutines doing lookups and iterating the returned slices while one writer applies a generated sequence; each observed result must equal the reference state at some point between the start and the end of that lookup.")
+	vlib.Rule("C35: a MasterClient built without dialing (NewMasterClient; updates through the verif export of addLocation/deleteLocation, i.e. exactly what the KeepConnected receive loop calls) gets a rapid-generated sequence of add/delete notifications over 4 volume ids x 5 locations (2 data centers + one location without data center; client data center empty/dc1/dc2) including duplicate adds, deletes of absent locations and deletes of the last location. After EVERY step all four lookup entry points (GetLocations, GetVidLocations, LookupVolumeServerUrl, LookupFileId) are compared for every volume id with a reference ordered set, and every lookup result handed out earlier must still read as it did when it was returned (a result that changes under the caller is a torn read). Plus a bounded-exhaustive enumeration of all sequences up to length 5 (quick) / 7 (thorough) over 1 volume x 3 locations. Non-trivial = the sequence contains an effective delete (location was present) AND at some step a volume had >= 2 locations; distinct = distinct written-out sequence. TestRace (thorough, -race): 4 reader goroutines doing lookups and iterating the returned slices while one writer applies a generated sequence; each observed result must equal the reference state at some point between the start and the end of that lookup. TestPropConcurrentWriters (both tiers, plain build; also under -race): a generated scenario of 2-8 writer goroutines with their own add/delete lists on the same 1-2 volume ids over up to 12 servers, released together by a spin barrier after a sequential prefix, repeated 60 (quick) / 200 (thorough) rounds on fresh clients; the final set must be duplicate-free and, per server, equal to the outcome of the last update of SOME goroutine touching that server (exactly determined when each server belongs to one goroutine, which is 3 of 4 scenarios); untouched servers keep the prefix state. Non-trivial there = >= 2 goroutines on one volume with >= 2 distinct servers.")
 	vlib.Assume("C35: a location is identified by its Url; PublicUrl and DataCenter are functions of the Url (a server does not change data center between notifications). 'None' may be reported as not-found or as an empty list. The reconnect path (tryAllMasters replacing the whole vidMap) needs a master connection and is not exercised.")
 	vlib.Main(m)
 }
 
 // ---------------------------------------------------------------- domain
 
-var locs = []wdclient.Location{
+// allLocs is the server table; the sequential properties use the first five
+// (locs), the concurrent-writers property all of them.
+var allLocs = []wdclient.Location{
 	{Url: "s0:8080", PublicUrl: "p0.example:8080", DataCenter: "dc1"},
 	{Url: "s1:8080", PublicUrl: "p1.example:8080", DataCenter: "dc1"},
 	{Url: "s2:8080", PublicUrl: "p2.example:8080", DataCenter: "dc2"},
 	{Url: "s3:8080", PublicUrl: "p3.example:8080", DataCenter: "dc2"},
 	{Url: "s4:8080", PublicUrl: "p4.example:8080", DataCenter: ""},
+	{Url: "s5:8080", PublicUrl: "p5.example:8080", DataCenter: "dc1"},
+	{Url: "s6:8080", PublicUrl: "p6.example:8080", DataCenter: "dc2"},
+	{Url: "s7:8080", PublicUrl: "p7.example:8080", DataCenter: "dc1"},
+	{Url: "s8:8080", PublicUrl: "p8.example:8080", DataCenter: "dc2"},
+	{Url: "s9:8080", PublicUrl: "p9.example:8080", DataCenter: ""},
+	{Url: "s10:8080", PublicUrl: "p10.example:8080", DataCenter: "dc1"},
+	{Url: "s11:8080", PublicUrl: "p11.example:8080", DataCenter: "dc2"},
 }
 
+var locs = allLocs[:5]
+
 func locIndex(url string) int {
-	for i, l := range locs {
+	for i, l := range allLocs {
 		if l.Url == url {
 			return i
 		}
@@ -143,7 +154,7 @@ func decodeLocations(got []wdclient.Location) (idx []int, problem string) {
 	seen := map[int]bool{}
 	for _, l := range got {
 		i := locIndex(l.Url)
-		if i < 0 || l != locs[i] {
+		if i < 0 || l != allLocs[i] {
 			return nil, fmt.Sprintf("torn/unknown entry %+v", l)
 		}
 		if seen[i] {
@@ -172,7 +183,7 @@ func decodeUrls(got []string, clientDC, prefix, suffix string) (idx []int, probl
 			return nil, fmt.Sprintf("duplicate url %q", u)
 		}
 		seen[i] = true
-		same := clientDC != "" && locs[i].DataCenter == clientDC
+		same := clientDC != "" && allLocs[i].DataCenter == clientDC
 		if same && otherSeen {
 			return nil, fmt.Sprintf("same-data-center url %q listed after a url of another data center: %v", u, got)
 		}
@@ -468,6 +479,238 @@ func TestPropSequenceExhaustive(t *testing.T) {
 	}
 	rec(nil)
 	vlib.Exhaustive(fmt.Sprintf("sequences<=%d over 1 volume x 3 locations", L), true)
+}
+
+// ---------------------------------------------------------------- concurrent writers
+
+// A concurrent scenario: a sequential prefix, then W writer goroutines, each
+// with its own op list, released together. The same scenario is run for many
+// rounds (fresh client each round) because only the schedule varies.
+type scenario struct {
+	dc      string
+	prefix  []op
+	writers [][]op
+	owned   bool // every server is updated by one goroutine only
+}
+
+func (sc scenario) String() string {
+	var sb strings.Builder
+	fmt.Fprintf(&sb, "prefix %s", opsString(sc.dc, sc.prefix))
+	for i, w := range sc.writers {
+		fmt.Fprintf(&sb, " || w%d:", i)
+		for _, o := range w {
+			sb.WriteByte(' ')
+			sb.WriteString(o.String())
+		}
+	}
+	return sb.String()
+}
+
+func genScenario(t *rapid.T) scenario {
+	sc := scenario{dc: rapid.SampledFrom([]string{"", "dc1", "dc2"}).Draw(t, "clientDC")}
+	nW := rapid.IntRange(2, 8).Draw(t, "writers")
+	nVids := rapid.IntRange(1, 2).Draw(t, "vids")
+	nServers := rapid.IntRange(nW, len(allLocs)).Draw(t, "servers")
+	sc.owned = rapid.IntRange(0, 3).Draw(t, "sharedServers") != 0
+	// prefix: some servers are already known (or the volume is brand new)
+	for i, n := 0, rapid.IntRange(0, 6).Draw(t, "prefixLen"); i < n; i++ {
+		sc.prefix = append(sc.prefix, op{
+			add: rapid.IntRange(0, 4).Draw(t, "pkind") != 0,
+			vid: vids[rapid.IntRange(0, nVids-1).Draw(t, "pvid")],
+			loc: rapid.IntRange(0, nServers-1).Draw(t, "ploc"),
+		})
+	}
+	sc.writers = make([][]op, nW)
+	for w := range sc.writers {
+		var mine []int // servers this goroutine may touch
+		for s := 0; s < nServers; s++ {
+			if !sc.owned || s%nW == w {
+				mine = append(mine, s)
+			}
+		}
+		n := rapid.IntRange(1, 5).Draw(t, "ops")
+		for i := 0; i < n; i++ {
+			sc.writers[w] = append(sc.writers[w], op{
+				add: rapid.IntRange(0, 9).Draw(t, "kind") < 7,
+				vid: vids[rapid.IntRange(0, nVids-1).Draw(t, "vid")],
+				loc: mine[rapid.IntRange(0, len(mine)-1).Draw(t, "loc")],
+			})
+		}
+	}
+	return sc
+}
+
+type vidLoc struct {
+	vid uint32
+	loc int
+}
+
+// allowedFinal gives, per (volume, server), the presence values the final state
+// may have under ANY interleaving of the writers: the set object is independent
+// per server, and the update that is applied last to a server is the last one
+// of some goroutine that touches it. Servers nobody touches keep the prefix state.
+func (sc scenario) allowedFinal() (base ref, mayBePresent, mayBeAbsent map[vidLoc]bool) {
+	base = ref{}
+	for _, o := range sc.prefix {
+		base.apply(o)
+	}
+	mayBePresent, mayBeAbsent = map[vidLoc]bool{}, map[vidLoc]bool{}
+	touched := map[vidLoc]bool{}
+	for _, w := range sc.writers {
+		last := map[vidLoc]bool{}
+		for _, o := range w {
+			last[vidLoc{o.vid, o.loc}] = o.add
+		}
+		for k, add := range last {
+			touched[k] = true
+			if add {
+				mayBePresent[k] = true
+			} else {
+				mayBeAbsent[k] = true
+			}
+		}
+	}
+	for _, v := range vids {
+		in := map[int]bool{}
+		for _, x := range base[v] {
+			in[x] = true
+		}
+		for s := range allLocs {
+			k := vidLoc{v, s}
+			if touched[k] {
+				continue
+			}
+			if in[s] {
+				mayBePresent[k] = true
+			} else {
+				mayBeAbsent[k] = true
+			}
+		}
+	}
+	return
+}
+
+// runRound executes the scenario once and returns "" or the discrepancy.
+func (sc scenario) runRound(mayBePresent, mayBeAbsent map[vidLoc]bool) string {
+	mc := newClient(sc.dc)
+	for _, o := range sc.prefix {
+		if o.add {
+			mc.VerifAddLocation(o.vid, allLocs[o.loc])
+		} else {
+			mc.VerifDeleteLocation(o.vid, allLocs[o.loc])
+		}
+	}
+	var arrived int32
+	n := int32(len(sc.writers))
+	var wg sync.WaitGroup
+	for _, w := range sc.writers {
+		wg.Add(1)
+		go func(ops []op) {
+			defer wg.Done()
+			// spin barrier: all writers start their first update together
+			atomic.AddInt32(&arrived, 1)
+			for atomic.LoadInt32(&arrived) < n {
+				runtime.Gosched()
+			}
+			for _, o := range ops {
+				if o.add {
+					mc.VerifAddLocation(o.vid, allLocs[o.loc])
+				} else {
+					mc.VerifDeleteLocation(o.vid, allLocs[o.loc])
+				}
+			}
+		}(w)
+	}
+	wg.Wait()
+	for _, v := range vids {
+		got, _ := mc.GetLocations(v)
+		idx, p := decodeLocations(got)
+		if p != "" {
+			return fmt.Sprintf("final GetLocations(%d): %s (%v)", v, p, got)
+		}
+		in := map[int]bool{}
+		for _, x := range idx {
+			in[x] = true
+		}
+		for s := range allLocs {
+			k := vidLoc{v, s}
+			if in[s] && !mayBePresent[k] {
+				return fmt.Sprintf("final GetLocations(%d) = %v contains %s although no order of the updates leaves it added (it was never added, or every goroutine that touches it deletes it last)", v, got, allLocs[s].Url)
+			}
+			if !in[s] && !mayBeAbsent[k] {
+				return fmt.Sprintf("final GetLocations(%d) = %v lacks %s although every goroutine that touches it adds it last (or nobody touched it and it was there): an update was lost", v, got, allLocs[s].Url)
+			}
+		}
+		// the other entry points agree with what GetLocations reports
+		if d := lookupAll(mc, sc.dc, v, idx); d != "" {
+			return "final state: " + d
+		}
+	}
+	return ""
+}
+
+func concurrentWriters(t *rapid.T, rounds int) {
+	sc := genScenario(t)
+	_, mayBePresent, mayBeAbsent := sc.allowedFinal()
+	for r := 0; r < rounds; r++ {
+		if d := sc.runRound(mayBePresent, mayBeAbsent); d != "" {
+			t.Fatalf("round %d of %d: %s\nscenario (each w is a goroutine, all released together after the prefix): %s", r, rounds, d, sc.String())
+		}
+	}
+	// classification
+	perVid := map[uint32]map[int]bool{}
+	writersOn := map[uint32]int{}
+	addDel := false
+	for _, w := range sc.writers {
+		seen := map[uint32]bool{}
+		for _, o := range w {
+			if perVid[o.vid] == nil {
+				perVid[o.vid] = map[int]bool{}
+			}
+			perVid[o.vid][o.loc] = true
+			if !seen[o.vid] {
+				seen[o.vid] = true
+				writersOn[o.vid]++
+			}
+			if !o.add {
+				addDel = true
+			}
+		}
+	}
+	nt := false
+	for v, n := range writersOn {
+		if n >= 2 && len(perVid[v]) >= 2 {
+			nt = true
+		}
+	}
+	cls := []string{"concurrent-writers", fmt.Sprintf("writers-%d", len(sc.writers))}
+	if sc.owned {
+		cls = append(cls, "one-goroutine-per-server")
+	} else {
+		cls = append(cls, "servers-shared-between-goroutines")
+	}
+	if addDel {
+		cls = append(cls, "concurrent-add-and-delete")
+	} else {
+		cls = append(cls, "concurrent-adds-only")
+	}
+	if len(sc.prefix) == 0 {
+		cls = append(cls, "volume-unknown-at-start")
+	}
+	vlib.Case("concurrent: "+sc.String(), nt, cls...)
+}
+
+// TestPropConcurrentWriters: 2-8 goroutines update the same 1-2 volume ids at
+// the same time. Whatever the interleaving, the final set must be explainable
+// by some order of the updates (see allowedFinal), without duplicates.
+func TestPropConcurrentWriters(t *testing.T) {
+	rounds := vlib.Pick(60, 200)
+	vlib.Check(t, 480, 6000, func(t *rapid.T) { concurrentWriters(t, rounds) })
+}
+
+// the same under the race detector (thorough)
+func TestRaceConcurrentWriters(t *testing.T) {
+	vlib.Check(t, 40, 200, func(t *rapid.T) { concurrentWriters(t, 40) })
 }
 
 // ---------------------------------------------------------------- finding probe
